@@ -515,7 +515,7 @@ func main() {
 		}
 	}
 	h.Main("C14", "exploration",
-		"deviation-bounded enumeration: seed corpus (one valid keyset per key type URL and parameter variant + 3 multi-key keysets) x structural mutation catalogue (keyset level: empty / primary / duplicate ids / every enum value and {-1,99} / nil and empty key data / type URLs; key level: every truncation, appended bytes, every scalar / enum / bytes / string / sub-message field of the key proto incl. nested KeyData and KeyTemplate values over a boundary set, EC point and RSA number edits, public/private halves swapped, the weak-parameter list of the statement); bound 1 over the full catalogue, bound 2 over the reduced catalogue (quick: 12 seeds, thorough: all). Keyset-level mutants, the pristine seeds and every 8th key-level mutant go through 6 entry paths (binary, JSON, encrypted under a real KEK, in-memory message; cleartext and no-secrets), the other key-level mutants through the two binary paths. Arbitrary input: all byte strings up to length 2/3, all JSON texts up to length 5/6 over {}[]\":,0a, every one-byte edit of minimal keysets (judged by an independent wire decoder), grammar-shaped JSON edits, EncryptedKeyset garbage. Oracles: no panic (parse, primitive creation, one use); accepted handle is well-formed; ill-formed keysets (reference rule) always rejected; created primitive self-consistent; weak keys (reference predicate) never usable. A case is non-trivial when a mutant / input was actually built and submitted; distinct = distinct choice vectors.",
+		"deviation-bounded enumeration: seed corpus (one valid keyset per key type URL and parameter variant + 3 multi-key keysets) x structural mutation catalogue (keyset level: empty / primary / duplicate ids / every enum value and {-1,99} / nil and empty key data / type URLs; key level: every truncation, appended bytes, every scalar / enum / bytes / string / sub-message field of the key proto incl. nested KeyData and KeyTemplate values over a boundary set, EC point and RSA number edits, public/private halves swapped, the weak-parameter list of the statement); bound 1 over the full catalogue, bound 2 over the reduced catalogue (quick: 12 seeds, thorough: all). Keyset-level mutants, the pristine seeds and every 8th key-level mutant go through 6 entry paths (binary, JSON, encrypted under a real KEK, in-memory message; cleartext and no-secrets), the other key-level mutants through the two binary paths. Arbitrary input: all byte strings up to length 2/3, all JSON texts up to length 5/6 over {}[]\":,0a, every one-byte edit of minimal keysets (judged by an independent wire decoder), grammar-shaped JSON edits, EncryptedKeyset garbage. Section keymanager-answers: keysets naming key types served by registered custom key managers (AEAD, DAEAD, MAC, PRF, streaming AEAD, signature and hybrid private / public) x {[C*],[R*,C],[C*,R],[R,C,R2*]} x prefix type of C x the key manager's Primitive() answer {correct, (nil,error), (nil,nil), primitive of another class, typed nil pointer} and PublicKeyData() answer {correct, error, nil, other type URL} (at most one unusual answer), read through the six entry paths: reading, Public(), primitive creation and one use fail with an error or succeed, never panic; accepted and Public() handles are well-formed. Oracles: no panic (parse, primitive creation, one use); accepted handle is well-formed; ill-formed keysets (reference rule) always rejected; created primitive self-consistent; weak keys (reference predicate) never usable. A case is non-trivial when a mutant / input was actually built and submitted; distinct = distinct choice vectors.",
 		[]h.Section{
 			{Name: "mutate-bound1", Body: mutSection(false), Bound: 1},
 			{Name: "mutate-bound2-reduced", Body: mutSection(true), Bound: 2}, // quick: 12 seeds, thorough: all
@@ -524,5 +524,7 @@ func main() {
 			{Name: "near-minimal-keysets", Body: nearMinimalSection, Bound: -1},
 			{Name: "json-grammar", Body: jsonGrammarSection, Bound: -1},
 			{Name: "encrypted-keyset", Body: encryptedSection, Bound: -1},
+			// custom key managers as collaborators with unusual answers (kmanswers.go)
+			{Name: "keymanager-answers", Body: kmAnswersSection, Bound: 1},
 		})
 }
